@@ -36,9 +36,17 @@ def eff_style(d, o):
     return o["style"] or d["bindingStyle"]
 
 
-def wsdl_text(d) -> str:
+def wsdl_files(d) -> dict:
+    """The definition as files: svc.wsdl, and types.xsd when the schema is imported."""
+    text, schema = wsdl_text(d, split=d.get("types") == "imported")
+    return {"svc.wsdl": text, **({"types.xsd": schema} if schema else {})}
+
+
+def wsdl_text(d, split=False):
     tns = d["tns"]
     els, msgs, pops, bops = [], [], [], []
+    if any(o.get("complexPart") for o in d["ops"]):
+        els.append('<xsd:complexType name="Pair"><xsd:sequence><xsd:element name="x" type="xsd:int"/><xsd:element name="y" type="xsd:string"/></xsd:sequence></xsd:complexType>')
     for o in d["ops"]:
         n = o["name"]
         if eff_style(d, o) == "document":
@@ -47,7 +55,8 @@ def wsdl_text(d) -> str:
             msgs.append(f'<message name="{n}In"><part name="parameters" element="tns:{n}Request"/></message>')
             msgs.append(f'<message name="{n}Out"><part name="parameters" element="tns:{n}Response"/></message>')
         else:
-            msgs.append(f'<message name="{n}In"><part name="a" type="xsd:int"/></message>')
+            extra = ('<part name="b" type="xsd:string"/>' if o.get("nparts") == 2 else "") + ('<part name="c" type="tns:Pair"/>' if o.get("complexPart") else "")
+            msgs.append(f'<message name="{n}In"><part name="a" type="xsd:int"/>{extra}</message>')
             # (WSDL 1.1 does not name the rpc response wrapper; the message is named by the usual
             #  <operation>Response convention so that no reading of the standard is privileged)
             msgs.append(f'<message name="{n}Response"><part name="r" type="xsd:string"/></message>')
@@ -69,13 +78,19 @@ def wsdl_text(d) -> str:
     if any(o["header"] for o in d["ops"]):
         els.append('<xsd:element name="Auth"><xsd:complexType><xsd:sequence><xsd:element name="token" type="xsd:string"/></xsd:sequence></xsd:complexType></xsd:element>')
         msgs.append('<message name="AuthHeader"><part name="auth" element="tns:Auth"/></message>')
+    schema_file = None
+    if split:
+        schema_file = f'<xsd:schema xmlns:xsd="{XSD}" xmlns:tns="{tns}" targetNamespace="{tns}" elementFormDefault="qualified">{"".join(els)}</xsd:schema>'
+        types = f'<types><xsd:schema><xsd:import namespace="{tns}" schemaLocation="types.xsd"/></xsd:schema></types>'
+    else:
+        types = f'<types><xsd:schema targetNamespace="{tns}" elementFormDefault="qualified">{"".join(els)}</xsd:schema></types>'
     return (
         f'<definitions xmlns="http://schemas.xmlsoap.org/wsdl/" xmlns:soap="http://schemas.xmlsoap.org/wsdl/soap/" xmlns:tns="{tns}" xmlns:xsd="{XSD}" '
-        f'targetNamespace="{tns}" name="Svc"><types><xsd:schema targetNamespace="{tns}" elementFormDefault="qualified">{"".join(els)}</xsd:schema></types>'
+        f'targetNamespace="{tns}" name="Svc">{types}'
         f'{"".join(msgs)}<portType name="Port">{"".join(pops)}</portType>'
         f'<binding name="PortBinding" type="tns:Port"><soap:binding transport="{d["transport"]}" style="{d["bindingStyle"]}"/>{"".join(bops)}</binding>'
         f'<service name="Svc"><port name="PortPort" binding="tns:PortBinding"><soap:address location="{d["location"]}"/></port></service></definitions>'
-    )
+    ), schema_file
 
 
 def hints(cls):
@@ -148,8 +163,9 @@ def pascal(name):
 
 def check_def(ctx, c):
     d = c["def"]
-    text = wsdl_text(d)
-    gen = cg.generate({"svc.wsdl": text}, ["svc.wsdl"])
+    files = wsdl_files(d)
+    text = files["svc.wsdl"] + ("\n<!-- types.xsd -->\n" + files["types.xsd"] if "types.xsd" in files else "")
+    gen = cg.generate(files, ["svc.wsdl"])
     try:
         info = {"wsdl": text, "definition": d}
         if gen.error is not None:
@@ -303,7 +319,7 @@ def run(ctx):
         seen.add(k)
         check_def(ctx, c)
         if len(ctx.samples) < 2 and len(seen) % 40 == 1:
-            ctx.sample({"wsdl": wsdl_text(c["def"])[:1500], "prescribed_service": c["services"][0], "prescribed_envelope": c["envelopes"][0]})
+            ctx.sample({"wsdl": wsdl_files(c["def"])["svc.wsdl"][:1500], "prescribed_service": c["services"][0], "prescribed_envelope": c["envelopes"][0]})
     ctx.extra["definitions"] = len(seen)
     cg.cleanup_all()
 
